@@ -22,6 +22,7 @@ def check(cx):
         'R11.1 census of every write that can raise oper/local_oper: only OPER under (configured name, password verified, mask matched) for the own user, and User::new copying the configured default modes',
         'R11.7 removing the mode removes the status: for every user-mode letter that has a clearing assignment, MODE -<letter> on the own nick clears the flag whenever it is set, under no further condition',
         'R11.8 (imported) the WALLOPS audience set follows a nick change and is touched by NICK only then (C15 R15.1/R15.2, wallops instances)',
+        'R11.9 the table through which OPER finds a configured operator maps every configured name, verbatim, to its entry',
         'R11.2 user MODE is applied only when the target equals the own nick; foreign targets get 502/401; every effect of process_mode_user is keyed by that target',
         'R11.3 KILL/DIE effects are guarded by the oper flag (else 481/483), WALLOPS fan-out and STATS replies by is_local_oper (else 481); KILL names the killer; WALLOPS fans out over exactly the +w set; SQUIT delegates to DIE only for the own server name',
         'R11.4 is_local_oper = local_oper || oper',
@@ -133,6 +134,10 @@ def check(cx):
     # ---------------------------------------------------------------- R11.8 imported: WALLOPS set under NICK
     r8 = cx.rule('R11.8', 'WALLOPS audience under nick changes (imported)', floor=1, kind='dependency')
     depends(cx, r8, 'C15', ('R15.1', 'R15.2'), 'the WALLOPS set is re-keyed exactly on accepted nick changes', only=r'wallops-condition\|(stale|spurious-insert)|unguarded\|(remove|insert) \$state\.wallops_users')
+
+    # ---------------------------------------------------------------- R11.9 the configured operator is found under its own name
+    r9 = cx.rule('R11.9', 'configured-operator lookup table', floor=1, kind='provenance')
+    rule_config_index_tables(cx, r9, which=('oper_config_idxs',))
 
     # ---------------------------------------------------------------- R11.7 a set flag can always be dropped
     r6 = cx.rule('R11.7', 'MODE -<letter> clears a set flag unconditionally', floor=3, kind='entailment')
